@@ -117,7 +117,7 @@ def run_strategy(run, f, scn: dict):
     parser, ctx, st, U = build(run, scn)
     ip = Interp(globals_={"exc": _exc_module(), "unprovided": U}, methods=methods, module=f.module, max_steps=40000)
     data = dict(scn["data"])
-    kw = {"as_attname": False, "excluded_keys": (["a"] if scn["excluded"] else None)}
+    kw = {"as_attname": False, "excluded_keys": (["a"] if scn["excluded"] else ["b"] if scn.get("excl_b") else None)}
     try:
         res = ip.call_function(f.node, (parser, data, ctx), kw)
     except Raised as r:
@@ -167,6 +167,9 @@ def scenarios(tier: str):
                         continue
                     out.append(dict(required=required, default=default, no_input=no_input, parse_ok=parse_ok, data=data,
                                     iac=iac, addition=addition, collect=collect, deps=deps, excluded=excluded))
+                    if deps and present and not any(k == "b" for k, _ in data):
+                        # the dependency `b` was supplied by position (excluded by the caller): it counts as provided
+                        out.append(dict(out[-1], excl_b=True))
                     if not present and not deps and not excluded and not iac and (tier == "thorough" or addition is None):
                         out.append(dict(out[-1], ignore_required=True))
                     if any(k == "x" for k, _ in data) and not deps and not excluded and not iac and parse_ok \
@@ -182,7 +185,8 @@ def describe(scn) -> str:
     return (f"field a (spellings a, a1{', depends on b' if scn['deps'] else ''}): "
             f"{'required' if scn['required'] else 'optional'}, {'default' if scn['default'] else 'no default'}, "
             f"{'no_input' if scn['no_input'] else 'takes input'}, value {'converts' if scn['parse_ok'] else 'fails to convert'}"
-            f"{', excluded by the caller' if scn['excluded'] else ''}; input {dict(scn['data'])!r} (in this order); "
+            f"{', excluded by the caller' if scn['excluded'] else ''}"
+            f"{', b supplied by position (excluded by the caller)' if scn.get('excl_b') else ''}; input {dict(scn['data'])!r} (in this order); "
             f"ignore_alias_conflicts={scn['iac']}, addition={scn['addition']}, "
             f"{'ignore_required=True, ' if scn.get('ignore_required') else ''}"
             f"{'the parser declares a type for unknown keys, ' if scn.get('addition_type') else ''}"
@@ -224,7 +228,7 @@ def expected(scn) -> tuple:
             result["a"] = ("default", "a")
     if "b" in d:
         result["b"] = ("parsed", "b", 7)
-    if scn["deps"] and result.get("a") == "PARSED" and "b" not in d:
+    if scn["deps"] and result.get("a") == "PARSED" and "b" not in d and not scn.get("excl_b"):
         errors.add("DependenciesAbsenceError")
     extras = [k for k, _ in data if k == "x" or (scn["excluded"] and k in ("a", "a1"))]
     for k in extras:
